@@ -114,6 +114,8 @@ def run_shard(spec, tier, seed):
     mine = sets[spec["i"]::spec["n"]]
     if spec["i"] == 0:
         run_classmethods(res, seed)
+    if spec["i"] < len(R.ALL_SYSTEMS):
+        run_extras_history(res, seed, R.ALL_SYSTEMS[spec["i"]])
     r = gen.rng(seed, "C06", spec["i"])
     objclasses = {(d, m): getattr(vector, ("MomentumObject" if m else "VectorObject") + f"{d}D") for d in (2, 3, 4) for m in (False, True)}
 
@@ -397,6 +399,78 @@ def run_classmethods(res, seed):
     if vector.arr is not vector.array or vector.awk is not vector.Array:
         res.violation("C06/module-alias-differs", {"arr": repr(vector.arr), "awk": repr(vector.awk)})
     res.cell("aliases", "arr/awk")
+
+
+def run_extras_history(res, seed, system):
+    """array constructors called again and again in one process with the same coordinate names and *different* extra
+    fields (and with other coordinate sets in between): every call carries exactly the extra names it was given, with
+    the values it was given, whatever was constructed before"""
+    import awkward as ak
+
+    import vector
+
+    r = gen.rng(seed, "C06extras", R.sysname(system))
+    sequence = [("weight",), ("charge",), ("charge", "weight"), ("iso", "charge", "weight"), (), ("weight",), ("label_id", "iso"), ("charge",)]
+    other_system = R.ALL_SYSTEMS[(R.ALL_SYSTEMS.index(system) + 7) % len(R.ALL_SYSTEMS)]
+    for sp in range(3):
+        names = tuple(B.names_for(system, True, sp)) if sp else tuple(R.field_names(system))
+        if sp and names == tuple(B.names_for(system, True, sp - 1)) and sp > 1:
+            continue
+        ref = classify(names)
+        for cname in ("zip", "Array", "array-dict", "array-dtype"):
+            for step, extras in enumerate(sequence):
+                allnames = list(names) + list(extras)
+                r.shuffle(allnames) if step % 2 else None
+                cols = {n: numpy.array([float(gen.dyadic(r, 0.25, 3, bits=6)) + 10 * j for _ in range(3)]) for j, n in enumerate(allnames)}
+                res.evaluations += 1
+                try:
+                    if cname == "zip":
+                        out = vector.zip({n: ak.Array(cols[n]) for n in allnames})
+                        fields = list(ak.fields(out))
+                        read = lambda f: [float(x) for x in ak.to_list(out[f])]  # noqa: E731
+                    elif cname == "Array":
+                        out = vector.Array([{n: float(cols[n][i]) for n in allnames} for i in range(3)])
+                        fields = list(ak.fields(out))
+                        read = lambda f: [float(x) for x in ak.to_list(out[f])]  # noqa: E731
+                    elif cname == "array-dict":
+                        out = vector.array({n: cols[n] for n in allnames})
+                        fields = list(numpy.asarray(out).dtype.names)
+                        read = lambda f: [float(x) for x in numpy.asarray(out).view(numpy.ndarray)[f]]  # noqa: E731
+                    else:
+                        dt = numpy.dtype([(n, numpy.float64) for n in allnames])
+                        out = vector.array([tuple(float(cols[n][i]) for n in allnames) for i in range(3)], dtype=dt)
+                        fields = list(numpy.asarray(out).dtype.names)
+                        read = lambda f: [float(x) for x in numpy.asarray(out).view(numpy.ndarray)[f]]  # noqa: E731
+                    # an unrelated construction in between (another coordinate set, another extra field)
+                    if cname in ("zip", "Array"):
+                        vector.zip({**{n: ak.Array(numpy.ones(2)) for n in R.field_names(other_system)}, "flag": ak.Array(numpy.zeros(2))})
+                    else:
+                        vector.array({**{n: numpy.ones(2) for n in R.field_names(other_system)}, "flag": numpy.zeros(2)})
+                except Exception as e:
+                    res.violation(f"C06/valid-name-set-with-extra-fields-rejected constructor={cname}",
+                                  {"names": allnames, "step": step, "exc": f"{type(e).__name__}: {e}"[:200]})
+                    continue
+                numpy_mom = True  # every array constructor stores coordinates under their geometric names
+                want_fields = [GEN(n) if (numpy_mom and n in names) else n for n in allnames]
+                if sorted(fields) != sorted(want_fields):
+                    res.violation(f"C06/extra-field-names-depend-on-earlier-constructions constructor={cname}",
+                                  {"given": allnames, "result_fields": fields, "step": step, "earlier_extras": [list(e) for e in sequence[:step]]})
+                    continue
+                bad = None
+                for n in allnames:
+                    f = GEN(n) if (numpy_mom and n in names) else n
+                    if read(f) != [float(x) for x in cols[n]]:
+                        bad = n
+                        break
+                if bad is not None:
+                    res.violation(f"C06/field-values-not-stored-verbatim-with-extra-fields constructor={cname}",
+                                  {"given": allnames, "field": bad, "step": step})
+                    continue
+                _, gsys, _, gmom, _ = B.stored_columns(out)
+                if gsys != ref[0] or gmom != ref[1]:
+                    res.violation(f"C06/wrong-coordinate-system-or-flavor-with-extra-fields constructor={cname}",
+                                  {"given": allnames, "got": [R.sysname(gsys) if gsys else None, gmom], "expected": [R.sysname(ref[0]), ref[1]]})
+                res.cell("extras-history", cname, "+".join(names), str(step))
 
 
 def finalize(total, tier, seed):
